@@ -296,9 +296,24 @@ func task18(kind int, in int, sh *shared18, variant uint64) [32]byte {
 		var f encode.Encoder // zero value: default metadata implied
 		f.StartPath(0, 1, 2)
 		f.ClosePathEndPath()
+		// a third Encoder starts a graphic with a viewBox and a palette of its own:
+		// one of four palettes of the same shape (64 translucent colours, four bytes
+		// each) that differ in every entry, so that concurrent pipelines write
+		// metadata chunks of equal length and different content
+		var p encode.Encoder
+		var pal [64]color.RGBA
+		k := uint8(variant % 4)
+		for i := range pal {
+			pal[i] = color.RGBA{0x10 + k, uint8(i), 0x21 + 2*k, 0x80 + k}
+		}
+		p.Reset(ivg.ViewBox{MinX: -float32(8 + k), MinY: -8, MaxX: 8, MaxY: float32(9 + k)}, pal)
+		p.StartPath(0, 1, 2)
+		p.AbsLineTo(3, 4)
+		p.ClosePathEndPath()
 		o1, _ := e.Bytes()
 		o2, _ := f.Bytes()
-		return sha256.Sum256(append(append([]byte(nil), o1...), o2...))
+		o3, _ := p.Bytes()
+		return sha256.Sum256(append(append(append([]byte(nil), o1...), o2...), o3...))
 	}
 }
 
